@@ -706,4 +706,393 @@ theorem tcpParseOptsB_spec (arr : Bytes) (hdrLen : Nat) (hh : hdrLen ≤ arr.len
       simp at h; subst h
       simp [optsBytes]; omega
 
+
+theorem decode_fits (L : Layout) : ∀ (bs : Bytes) (vs : List Val) (r : Bytes), decode L bs = some (vs, r) → fits L vs := by
+  induction L with
+  | nil => intro bs vs r h; simp [decode] at h; obtain ⟨rfl, _⟩ := h; simp [fits]
+  | cons f L ih =>
+    intro bs vs r h
+    cases f with
+    | uint w =>
+      unfold decode at h
+      split at h
+      · simp at h
+      · rename_i hw
+        cases hd : decode L (bs.drop w) with
+        | none => simp [hd] at h
+        | some p =>
+          obtain ⟨vs', r'⟩ := p
+          simp [hd] at h
+          obtain ⟨rfl, rfl⟩ := h
+          exact ⟨beDec_lt_of_length _ w (by simp [List.length_take]; omega), ih _ _ _ hd⟩
+    | pad n =>
+      unfold decode at h
+      split at h
+      · simp at h
+      · simpa [fits] using ih _ _ _ h
+    | blob n =>
+      unfold decode at h
+      split at h
+      · simp at h
+      · rename_i hw
+        cases hd : decode L (bs.drop n) with
+        | none => simp [hd] at h
+        | some p =>
+          obtain ⟨vs', r'⟩ := p
+          simp [hd] at h
+          obtain ⟨rfl, rfl⟩ := h
+          exact ⟨by simp [List.length_take]; omega, ih _ _ _ hd⟩
+
+theorem unpackE_fits (L : Layout) (bs : Bytes) (vs : List Val) (h : unpackE L bs = .ok vs) : fits L vs := by
+  unfold unpackE at h
+  cases hu : unpack L bs with
+  | none => simp [hu] at h
+  | some vs' =>
+    simp [hu] at h
+    subst h
+    unfold unpack at hu
+    split at hu
+    · cases hd : decode L bs with
+      | none => simp [hd] at hu
+      | some p => simp [hd] at hu; subst hu; exact decode_fits L bs p.1 p.2 hd
+    · simp at hu
+
+theorem tcp_shape (b : Bytes) (h : b.length = 20) :
+    ∃ sp dp seq ack offres flags win csum urg,
+      unpackE tcpL b = .ok [.num sp, .num dp, .num seq, .num ack, .num offres, .num flags, .num win, .num csum, .num urg] ∧
+      unpack tcpL b = some [.num sp, .num dp, .num seq, .num ack, .num offres, .num flags, .num win, .num csum, .num urg] ∧
+      sp < 65536 ∧ dp < 65536 ∧ seq < 4294967296 ∧ ack < 4294967296 ∧ offres < 256 ∧ flags < 256 ∧ win < 65536 ∧
+      csum < 65536 ∧ urg < 65536 := by
+  obtain ⟨vs, hu, hu', hf⟩ := unpackE_total tcpL b (by rw [h]; rfl)
+  simp only [tcpL, fits_uint_iff, fits_nil_iff] at hf
+  obtain ⟨a1, _, rfl, h1, a2, _, rfl, h2, a3, _, rfl, h3, a4, _, rfl, h4, a5, _, rfl, h5, a6, _, rfl, h6, a7, _, rfl, h7,
+    a8, _, rfl, h8, a9, _, rfl, h9, rfl⟩ := hf
+  exact ⟨a1, a2, a3, a4, a5, a6, a7, a8, a9, hu, hu', by simpa using h1, by simpa using h2, by simpa using h3,
+    by simpa using h4, by simpa using h5, by simpa using h6, by simpa using h7, by simpa using h8, by simpa using h9⟩
+
+theorem tcpParse_spec (raw : Bytes) : ∃ f, tcpParse Cfg.repaired raw = .ok f ∧ f.bytes = raw ∧ GoodIn true f := by
+  unfold tcpParse
+  dsimp only
+  split
+  · exact ⟨_, rfl, rfl, trivial⟩
+  · rename_i hlen
+    obtain ⟨sp, dp, seq, ack, offres, flags, win, csum, urg, hu, _, h1, h2, h3, h4, h5, h6, h7, h8, h9⟩ :=
+      tcp_shape (raw.take 20) (take_len raw 20 (by omega))
+    simp only [hu]
+    split
+    · exact ⟨_, rfl, rfl, trivial⟩
+    · rename_i hoff
+      have hb : (if Cfg.repaired.tcpOptBound = true then offres / 16 * 4 else raw.length) = offres / 16 * 4 := by
+        simp [Cfg.repaired]
+      rw [hb]
+      cases hr : tcpParseOptsB (offres / 16 * 4) raw (offres / 16 * 4) (offres / 16 * 4) 20 with
+      | fail => exact ⟨_, rfl, rfl, trivial⟩
+      | mptcp => exact ⟨_, rfl, rfl, trivial⟩
+      | ok os =>
+        obtain ⟨o1, o2⟩ := tcpParseOptsB_spec raw (offres / 16 * 4) (by omega) _ 20 os (by omega) hr
+        refine ⟨_, rfl, rfl, rfl, ⟨h1, h2, h3, h4, by show offres % 16 < 16; omega, h6, h7, h9⟩, o1, o2,
+          by show offres / 16 < 16; omega, rfl, raw.take (offres / 16 * 4), take_len raw _ (by omega), split2 raw _⟩
+
+/-! ### LLDP -/
+
+theorem tlvBody_fits (t : Nat) (data : Bytes) (tlv : Tlv) (ht : t < 128) (h : tlvBody t data = .ok tlv) : tlv.Fits := by
+  unfold tlvBody at h
+  by_cases c12 : t = 1 ∨ t = 2
+  · rw [if_pos c12] at h
+    split at h
+    · simp at h
+    · cases hu : unpackE u8L (sl data 0 1) with
+      | error e => simp [hu] at h
+      | ok vs =>
+        have hf := unpackE_fits _ _ _ hu
+        simp only [u8L, fits_uint_iff, fits_nil_iff] at hf
+        obtain ⟨st, _, rfl, hst, rfl⟩ := hf
+        simp [hu] at h
+        have hst' : st < 256 := by simpa using hst
+        split at h <;> (simp [pure, Except.pure] at h; subst h; exact hst')
+  rw [if_neg c12] at h
+  by_cases c3 : t = 3
+  · rw [if_pos c3] at h
+    split at h
+    · simp at h
+    · cases hu : unpackE u16L (sl data 0 2) with
+      | error e => simp [hu] at h
+      | ok vs =>
+        have hf := unpackE_fits _ _ _ hu
+        simp only [u16L, fits_uint_iff, fits_nil_iff] at hf
+        obtain ⟨v, _, rfl, hv, rfl⟩ := hf
+        simp [hu, pure, Except.pure] at h
+        subst h
+        show v < 65536
+        simpa using hv
+  rw [if_neg c3] at h
+  by_cases c0 : t = 0
+  · rw [if_pos c0] at h
+    split at h
+    · simp at h
+    · simp [pure, Except.pure] at h; subst h; trivial
+  rw [if_neg c0] at h
+  by_cases c7 : t = 7
+  · rw [if_pos c7] at h
+    cases hu : unpackE capsL data with
+    | error e => simp [hu] at h
+    | ok vs =>
+      have hf := unpackE_fits _ _ _ hu
+      simp only [capsL, fits_uint_iff, fits_nil_iff] at hf
+      obtain ⟨a, _, rfl, ha, b, _, rfl, hb, rfl⟩ := hf
+      simp [hu, pure, Except.pure] at h
+      subst h
+      exact ⟨by simpa using ha, by simpa using hb⟩
+  rw [if_neg c7] at h
+  by_cases c8 : t = 8
+  · rw [if_pos c8] at h
+    simp only [bind, Except.bind] at h
+    cases h0 : idx data 0 with
+    | error e => simp [h0] at h
+    | ok a1 =>
+      simp only [h0] at h
+      cases h1 : idx data 1 with
+      | error e => simp [h1] at h
+      | ok ast =>
+        simp only [h1] at h
+        cases h2 : idx data (1 + a1) with
+        | error e => simp [h2] at h
+        | ok ins =>
+          simp only [h2] at h
+          cases hu : unpackE u32L (sl data (2 + a1) (6 + a1)) with
+          | error e => simp [hu] at h
+          | ok vs =>
+            have hf := unpackE_fits _ _ _ hu
+            simp only [u32L, fits_uint_iff, fits_nil_iff] at hf
+            obtain ⟨ifn, _, rfl, hifn, rfl⟩ := hf
+            simp only [hu] at h
+            cases h3 : idx data (6 + a1) with
+            | error e => simp [h3] at h
+            | ok osl =>
+              simp [h3, pure, Except.pure] at h
+              subst h
+              have idx_lt : ∀ (b : Bytes) (i v : Nat), idx b i = .ok v → v < 256 := by
+                intro b i v hv
+                unfold idx at hv
+                cases hx : b[i]? with
+                | none => simp [hx] at hv
+                | some x => simp [hx] at hv; subst hv; exact x.toNat_lt
+              have ha1 := idx_lt _ _ _ h0
+              have hosl := idx_lt _ _ _ h3
+              refine ⟨idx_lt _ _ _ h1, ?_, idx_lt _ _ _ h2, by simpa using hifn, ?_⟩
+              · have := sl_length_le data 2 (1 + a1); omega
+              · have := sl_length_le data (7 + a1) (7 + a1 + osl); omega
+  rw [if_neg c8] at h
+  by_cases c127 : t = 127
+  · rw [if_pos c127] at h
+    cases hu : unpackE orgL (sl data 0 4) with
+    | error e => simp [hu] at h
+    | ok vs =>
+      have hf := unpackE_fits _ _ _ hu
+      simp only [orgL, fits_blob_iff, fits_uint_iff, fits_nil_iff] at hf
+      obtain ⟨oui, _, rfl, ho, st, _, rfl, hst, rfl⟩ := hf
+      simp [hu, pure, Except.pure] at h
+      subst h
+      exact ⟨ho, by simpa using hst⟩
+  rw [if_neg c127] at h
+  simp [pure, Except.pure] at h
+  subst h
+  exact ht
+
+theorem tlvParse_fits (raw : Bytes) (tlv : Tlv) (h : tlvParse raw = .ok tlv) : tlv.Fits := by
+  unfold tlvParse at h
+  cases hu : unpackE u16L (sl raw 0 2) with
+  | error e => simp [hu] at h
+  | ok vs =>
+    have hf := unpackE_fits _ _ _ hu
+    simp only [u16L, fits_uint_iff, fits_nil_iff] at hf
+    obtain ⟨tl, _, rfl, htl, rfl⟩ := hf
+    simp only [hu] at h
+    split at h
+    · simp at h
+    · exact tlvBody_fits _ _ _ (by have : tl < 65536 := by simpa using htl
+                                   omega) h
+
+/-- `next_tlv` of the repaired code never raises; what it returns consumed at least the 2-byte TLV header -/
+theorem nextTlv_spec (array : Bytes) :
+    ∃ r, nextTlv Cfg.repaired array = .ok r ∧ ∀ n t, r = some (n, t) → 2 ≤ n ∧ t.Fits := by
+  unfold nextTlv
+  split
+  · exact ⟨none, rfl, by simp⟩
+  · rename_i hlen
+    obtain ⟨tl, hu, _, _⟩ := num1_shape 2 (sl array 0 2) (by rw [sl_length array _ _ (by omega)])
+    have hu' : unpackE u16L (sl array 0 2) = .ok [.num tl] := hu
+    simp only [hu']
+    have hb : (if Cfg.repaired.tlvBound = true then 2 + tl % 512 else tl % 512) = 2 + tl % 512 := by simp [Cfg.repaired]
+    rw [hb]
+    by_cases hc : array.length < 2 + tl % 512
+    · rw [if_pos hc]; exact ⟨none, rfl, by simp⟩
+    · rw [if_neg hc]
+      cases ht : tlvParse (sl array 0 (2 + tl % 512)) with
+      | ok t =>
+        refine ⟨some (2 + tl % 512, t), rfl, ?_⟩
+        intro n t' he
+        simp at he
+        obtain ⟨rfl, rfl⟩ := he
+        exact ⟨by omega, tlvParse_fits _ _ ht⟩
+      | error e => exact ⟨none, by simp [Cfg.repaired, pure, Except.pure], by simp⟩
+
+theorem lldpLoop_spec (raw : Bytes) : ∀ (fuel pduhead : Nat) (acc : List Tlv), 1 ≤ fuel → raw.length + 1 ≤ pduhead + fuel →
+    (∀ t ∈ acc, t.Fits) →
+    ∃ ts fin, lldpLoop Cfg.repaired fuel raw pduhead acc = .ok (ts, fin) ∧ ∀ t ∈ ts, t.Fits := by
+  intro fuel
+  induction fuel with
+  | zero => intro p acc h; omega
+  | succ fuel ih =>
+    intro p acc _ hinv hacc
+    unfold lldpLoop
+    obtain ⟨r, hr, hspec⟩ := nextTlv_spec (raw.drop p)
+    simp only [hr]
+    cases r with
+    | none => exact ⟨acc, false, rfl, hacc⟩
+    | some q =>
+      obtain ⟨ret, t⟩ := q
+      obtain ⟨hret, htf⟩ := hspec ret t rfl
+      have hacc' : ∀ x ∈ acc ++ [t], x.Fits := by
+        intro x hx; simp at hx; rcases hx with hx | rfl
+        · exact hacc x hx
+        · exact htf
+      dsimp only
+      split
+      · exact ⟨_, true, rfl, hacc'⟩
+      · split
+        · exact ⟨_, false, rfl, hacc'⟩
+        · rename_i hge
+          exact ih (p + ret) (acc ++ [t]) (by omega) (by omega) hacc'
+
+theorem lldpParse_spec (raw : Bytes) : ∃ f, lldpParse Cfg.repaired raw = .ok f ∧ f.bytes = raw ∧ Good f := by
+  unfold lldpParse
+  split
+  · exact ⟨_, rfl, rfl, by simp [Good]⟩
+  rename_i hlen
+  obtain ⟨r1, h1, s1⟩ := nextTlv_spec raw
+  simp only [h1]
+  cases r1 with
+  | none => exact ⟨_, rfl, rfl, by simp [Good]⟩
+  | some q1 =>
+    obtain ⟨n1, t1⟩ := q1
+    obtain ⟨hn1, f1⟩ := s1 n1 t1 rfl
+    dsimp only
+    split
+    · exact ⟨_, rfl, rfl, by simp [Good]; exact f1⟩
+    obtain ⟨r2, h2, s2⟩ := nextTlv_spec (raw.drop n1)
+    simp only [h2]
+    cases r2 with
+    | none => exact ⟨_, rfl, rfl, by simp [Good]; exact f1⟩
+    | some q2 =>
+      obtain ⟨n2, t2⟩ := q2
+      obtain ⟨hn2, f2⟩ := s2 n2 t2 rfl
+      dsimp only
+      split
+      · exact ⟨_, rfl, rfl, by simp [Good]; exact ⟨f1, f2⟩⟩
+      obtain ⟨r3, h3, s3⟩ := nextTlv_spec (raw.drop (n1 + n2))
+      simp only [h3]
+      cases r3 with
+      | none => exact ⟨_, rfl, rfl, by simp [Good]; exact ⟨f1, f2⟩⟩
+      | some q3 =>
+        obtain ⟨n3, t3⟩ := q3
+        obtain ⟨hn3, f3⟩ := s3 n3 t3 rfl
+        dsimp only
+        split
+        · exact ⟨_, rfl, rfl, by simp [Good]; exact ⟨f1, f2, f3⟩⟩
+        obtain ⟨ts, fin, hl, hts⟩ := lldpLoop_spec raw raw.length (n1 + n2 + n3) [t1, t2, t3] (by omega) (by omega)
+          (by intro t ht; simp at ht; rcases ht with rfl | rfl | rfl <;> assumption)
+        simp only [hl]
+        exact ⟨_, rfl, rfl, hts⟩
+
+/-- every constructor call of the repaired code returns, and its result satisfies the invariant, as soon as the nesting budget
+covers one activation per four input bytes (every parser that calls a nested constructor consumed at least four bytes) -/
+theorem parseD_spec : ∀ (d : Nat) (k : K) (raw : Bytes), raw.length / 4 + 1 ≤ d →
+    ∃ f, parseD Cfg.repaired d k raw = .ok f ∧ f.bytes = raw ∧ Spec k f := by
+  intro d
+  induction d with
+  | zero => intro k raw h; omega
+  | succ d ih =>
+    intro k raw h
+    have hn : NextSpec (parseD Cfg.repaired d) raw.length := by
+      intro k' b hb; exact ih k' b (by omega)
+    cases k <;> simp only [parseD, Spec]
+    · exact ethParse_spec _ raw hn
+    · exact vlanParse_spec _ raw hn
+    · exact llcParse_spec _ raw hn
+    · exact arpParse_spec raw
+    · exact ipv4Parse_spec _ raw hn
+    · exact udpParse_spec raw
+    · exact tcpParse_spec raw
+    · exact icmpParse_spec _ raw hn
+    · exact echoParse_spec raw
+    · exact unreachParse_spec _ raw hn
+    · exact timeExParse_spec _ raw hn
+    · exact lldpParse_spec raw
+
+/-! ## the input is tiled -/
+
+/-- Every object's bytes are its header followed by exactly the bytes handed to the next layer; only `ipv4` (bytes beyond the
+total-length field) and `udp` (payload dropped when the length field is inconsistent) cut something off, and `llc`/`lldp`
+objects that gave up keep everything in `raw`. -/
+def Frame.Tiles : Frame → Prop
+  | .raw _ | .nil | .unparsed _ _ | .foreign _ _ | .lldp _ _ _ => True
+  | .eth _ r n => (∃ hd, hd.length = 14 ∧ r = hd ++ n.bytes) ∧ n.Tiles
+  | .vlan _ r n => (∃ hd, hd.length = 4 ∧ r = hd ++ n.bytes) ∧ n.Tiles
+  | .llc h p r n => (p = true → ∃ hd, hd.length = h.length ∧ r = hd ++ n.bytes) ∧ (p = false → n = .nil) ∧ n.Tiles
+  | .arp _ r n => (∃ hd, hd.length = 28 ∧ r = hd ++ n.bytes) ∧ n.Tiles
+  | .ipv4 h r n => (∃ hd cut, hd.length = h.hl * 4 ∧ r = hd ++ (n.bytes ++ cut)) ∧ n.Tiles
+  | .udp _ r n => (∃ hd cut, hd.length = 8 ∧ r = hd ++ (n.bytes ++ cut)) ∧ n.Tiles
+  | .tcp h r n => (∃ hd, hd.length = h.off * 4 ∧ r = hd ++ n.bytes) ∧ n.Tiles
+  | .icmp _ r n | .echo _ r n | .unreach _ r n | .timeEx _ r n => (∃ hd, hd.length = 4 ∧ r = hd ++ n.bytes) ∧ n.Tiles
+
+theorem tiles_leaf (f : Frame) (h : f.isLeaf = true) : f.Tiles := by
+  cases f <;> simp_all [Frame.isLeaf, Frame.Tiles]
+
+theorem goodIn_tiles : ∀ (f : Frame) (l4 : Bool), GoodIn l4 f → f.Tiles := by
+  intro f
+  induction f with
+  | raw _ | nil | unparsed _ _ | foreign _ _ | lldp _ _ _ => intros; trivial
+  | eth _ _ _ _ | vlan _ _ _ _ | llc _ _ _ _ _ | arp _ _ _ _ => intro l4 h; simp [GoodIn] at h
+  | ipv4 h r n ih => intro l4 g; obtain ⟨_, _, ⟨hd, cut, h1, h2, _⟩, g'⟩ := g; exact ⟨⟨hd, cut, h1, h2⟩, ih _ g'⟩
+  | udp h r n ih => intro l4 g; obtain ⟨_, _, hl, hd, cut, h1, h2⟩ := g; exact ⟨⟨hd, cut, h1, h2⟩, tiles_leaf n hl⟩
+  | tcp h r n ih => intro l4 g; obtain ⟨_, _, _, _, _, hl, hd, h1, h2⟩ := g; exact ⟨⟨hd, h1, h2⟩, tiles_leaf n hl⟩
+  | icmp h r n ih => intro l4 g; obtain ⟨_, _, t, g'⟩ := g; exact ⟨t, ih _ g'⟩
+  | echo h r n ih => intro l4 g; obtain ⟨_, hl, t⟩ := g; exact ⟨t, tiles_leaf n hl⟩
+  | unreach h r n ih => intro l4 g; obtain ⟨_, t, g'⟩ := g; exact ⟨t, ih _ g'⟩
+  | timeEx h r n ih => intro l4 g; obtain ⟨_, t, g'⟩ := g; exact ⟨t, ih _ g'⟩
+
+theorem good_tiles : ∀ (f : Frame), Good f → f.Tiles := by
+  intro f
+  induction f with
+  | raw _ | nil | unparsed _ _ | foreign _ _ | lldp _ _ _ => intros; trivial
+  | udp _ _ _ _ | tcp _ _ _ _ | icmp _ _ _ _ | echo _ _ _ _ | unreach _ _ _ _ | timeEx _ _ _ _ => intro h; simp [Good] at h
+  | eth h r n ih => intro g; obtain ⟨_, t, g'⟩ := g; exact ⟨t, ih g'⟩
+  | vlan h r n ih => intro g; obtain ⟨_, t, g'⟩ := g; exact ⟨t, ih g'⟩
+  | llc h p r n ih => intro g; obtain ⟨a, b, g'⟩ := g; exact ⟨fun hp => (a hp).2, b, ih g'⟩
+  | arp h r n ih => intro g; obtain ⟨_, hl, t⟩ := g; exact ⟨t, tiles_leaf n hl⟩
+  | ipv4 h r n ih => intro g; exact goodIn_tiles _ false g
+
+/-! ## printing -/
+
+theorem tlvsStr_ok (ts : List Tlv) : tlvsStr Cfg.repaired ts = .ok () := by
+  induction ts with
+  | nil => rfl
+  | cons t r ih =>
+    have : tlvStr Cfg.repaired t = .ok () := by cases t <;> simp [tlvStr, Cfg.repaired, pure, Except.pure]
+    simp [tlvsStr, this, ih, bind, Except.bind]
+
+theorem llcStr_ok (h : Llc) : llcStr Cfg.repaired h = .ok () := by
+  unfold llcStr
+  repeat' split
+  all_goals first | rfl | (rename_i hc; simp [Cfg.repaired] at hc)
+
+/-- `str()` / `dump()` of any object chain of the repaired code is defined -/
+theorem printF_ok (f : Frame) : printF Cfg.repaired f = .ok () := by
+  induction f with
+  | raw _ | nil | unparsed _ _ | foreign _ _ => rfl
+  | lldp ts _ _ => exact tlvsStr_ok ts
+  | llc h p r n ih => simp [printF, llcStr_ok, ih, bind, Except.bind]
+  | eth _ _ _ ih | vlan _ _ _ ih | arp _ _ _ ih | ipv4 _ _ _ ih | udp _ _ _ ih | tcp _ _ _ ih | icmp _ _ _ ih
+  | echo _ _ _ ih | unreach _ _ _ ih | timeEx _ _ _ ih => simpa [printF] using ih
 end Pox.Parse
